@@ -62,8 +62,9 @@ def gen_random_case(rng, kinds):
         feats = rng.sample(pool, d)
     else:
         feats = None
+    # "written by hand": in a third of the cases the parameters are replaced a second time, in place, on the same object
     return dict(src="random", kind=kind, d=d, s=s, noise=noise, feats=feats, hyp=hyp, name=pick_name(rng, kind),
-                pseed=rng.randrange(10 ** 6))
+                pseed=rng.randrange(10 ** 6), rewrite=(rng.randrange(10 ** 6) if rng.random() < 0.35 else None))
 
 
 def pick_name(rng, kind):
@@ -147,6 +148,9 @@ def build_model(E, case):
         m._initialize_state()
         m.load_parameters(random_parameters(E, case["pseed"], m))
         m._is_initialized = True          # what BaseModel.load does after load_parameters
+        if case.get("rewrite") is not None:
+            # parameters written by hand on an object that already holds population variables
+            m.load_parameters(random_parameters(E, case["rewrite"], m))
         return m, None
     which = case["which"]
     df0, _ = A.cohort(which)
